@@ -162,8 +162,10 @@ impl Selector {
                     /* The selector matches if idx == a*n + b, where
                      * n >= 0
                      */
-                    let idx_offset = idx - b;
-                    if *a == 0 {
+                    // Use i64 so that extreme a/b values can't overflow.
+                    let (a, b) = (*a as i64, *b as i64);
+                    let idx_offset = idx as i64 - b;
+                    if a == 0 {
                         return idx_offset == 0 && Self::do_matches(&comps[1..], node);
                     }
                     if (idx_offset % a) != 0 {
